@@ -428,4 +428,259 @@ theorem headn_spec {rs : Ranges} (hi : RInv rs) (limit : Nat) :
   rw [List.reverse_reverse, card_reverse] at h1
   exact ⟨_, headn_eq hi limit, lastHeights_inv limit (by simpa using hi), h1.1, h1.2⟩
 
+/-! ### `partitions` -/
+
+/-- `pop_tail` in terms of the ascending list of heights -/
+theorem popTail_heights {r : Range} {rs : Ranges} (hi : RInv (r :: rs)) :
+    ∃ rs', popTail (r :: rs) = .ok (some r.1, rs') ∧ RInv rs' ∧
+      heights (r :: rs) = r.1 :: heights rs' ∧ card rs' + 1 = card (r :: rs) := by
+  obtain ⟨h1, hv, hrs⟩ := inv_cons.1 hi
+  have hvv := hv
+  unfold ValidR at hvv
+  by_cases hone : r.1 = r.2
+  · refine ⟨rs, ?_, hrs, ?_, ?_⟩
+    · have : r.2 + 1 - r.1 = 1 := by omega
+      simp [popTail, rangeLen_ok hv, this]
+    · have : r.2 + 1 - r.1 = 1 := by omega
+      rw [heights_cons, this]; rfl
+    · rw [card_cons]; omega
+  · refine ⟨(r.1 + 1, r.2) :: rs, ?_, ?_, ?_, ?_⟩
+    · have h2 : ¬ (r.2 + 1 - r.1 = 1) := by omega
+      have h3 : r.1 + 1 ≤ U64_MAX := by omega
+      simp [popTail, rangeLen_ok hv, h2, addU64, h3]
+    · exact inv_cons.2 ⟨h1, ⟨by show 1 ≤ r.1 + 1; omega, by show r.1 + 1 ≤ r.2; omega, hvv.2.2⟩, hrs⟩
+    · rw [heights_cons, heights_cons]
+      have e : r.2 + 1 - r.1 = (r.2 + 1 - (r.1 + 1)) + 1 := by omega
+      show List.range' r.1 (r.2 + 1 - r.1) ++ _ = r.1 :: (List.range' (r.1 + 1) (r.2 + 1 - (r.1 + 1)) ++ _)
+      rw [e, List.range'_succ]
+      simp
+    · simp only [card_cons]; omega
+
+/-- `pop_head` in terms of the ascending list of heights -/
+theorem popHead_heights {r : Range} {ys : Ranges} (hi : RInv (ys ++ [r])) :
+    ∃ rs', popHead (ys ++ [r]) = .ok (some r.2, rs') ∧ RInv rs' ∧
+      heights (ys ++ [r]) = heights rs' ++ [r.2] ∧ card rs' + 1 = card (ys ++ [r]) := by
+  obtain ⟨hys, hr, hc⟩ := inv_append.1 hi
+  have hv : ValidR r := inv_singleton.1 hr
+  have hvv := hv
+  unfold ValidR at hvv
+  have hlast : (ys ++ [r]).getLast? = some r := List.getLast?_concat
+  have hdl : (ys ++ [r]).dropLast = ys := List.dropLast_concat
+  by_cases hone : r.1 = r.2
+  · refine ⟨ys, ?_, hys, ?_, ?_⟩
+    · have : r.2 + 1 - r.1 = 1 := by omega
+      simp [popHead, hlast, hdl, rangeLen_ok hv, this]
+    · have : r.2 + 1 - r.1 = 1 := by omega
+      rw [heights_append, heights_singleton, this, hone]; rfl
+    · rw [card_append]; simp; omega
+  · refine ⟨ys ++ [(r.1, r.2 - 1)], ?_, ?_, ?_, ?_⟩
+    · have h2 : ¬ (r.2 + 1 - r.1 = 1) := by omega
+      have h3 : 1 ≤ r.2 := by omega
+      simp [popHead, hlast, hdl, rangeLen_ok hv, h2, subU64, h3]
+    · refine inv_append.2 ⟨hys, inv_singleton.2 ⟨hvv.1, by show r.1 ≤ r.2 - 1; omega, by show r.2 - 1 ≤ U64_MAX; omega⟩, ?_⟩
+      intro x hx y hy
+      simp only [List.mem_singleton] at hy
+      subst hy
+      exact hc x hx r (by simp)
+    · rw [heights_append, heights_append, heights_singleton, heights_singleton, List.append_assoc]
+      congr 1
+      have e : r.2 + 1 - r.1 = (r.2 - 1 + 1 - r.1) + 1 := by omega
+      show List.range' r.1 (r.2 + 1 - r.1) = List.range' r.1 (r.2 - 1 + 1 - r.1) ++ [r.2]
+      rw [e, List.range'_concat]
+      congr 2
+      omega
+    · simp only [card_append, card_cons, card_nil]; omega
+
+/-- second phase of the `partitions` loop: once `left_len ≥ middle` every range goes right -/
+theorem partitionsGo_right {middle ll : Nat} {left : Ranges} (hll : middle ≤ ll) :
+    ∀ {rest right : Ranges}, RInv (right ++ rest) → ll + card rest ≤ U64_MAX →
+      partitionsGo middle rest left right ll = .ok (left, right ++ rest, ll)
+  | [], right, _, _ => by simp [partitionsGo]
+  | x :: rest, right, hi, hb => by
+    obtain ⟨hr, hxr, hc⟩ := inv_append.1 hi
+    obtain ⟨hx1, hvx, hrest⟩ := inv_cons.1 hxr
+    have hvv := hvx
+    unfold ValidR at hvv
+    rw [card_cons] at hb
+    have h1 : ll + (x.2 + 1 - x.1) ≤ U64_MAX := by omega
+    have h2 : ¬ ll + (x.2 + 1 - x.1) ≤ middle := by omega
+    have h3 : ¬ ll < middle := by omega
+    have hins : insertRelaxed right x = .ok (right ++ [x]) :=
+      insertRelaxed_append_end hr hvx (fun y hy => hc y hy x (by simp))
+    have hi2 : RInv ((right ++ [x]) ++ rest) := by simpa [List.append_assoc] using hi
+    have ih := partitionsGo_right (left := left) hll (rest := rest) (right := right ++ [x]) hi2 (by omega)
+    rw [partitionsGo]
+    simp only [rangeLen_ok hvx, ok_bind, addU64, h1, ↓reduceIte, h2, h3, hins, expectOk_ok, ih]
+    simp [List.append_assoc]
+
+/-- first phase of the `partitions` loop (while `left_len ≤ middle`, `right` still empty) -/
+theorem partitionsGo_left {middle : Nat} : ∀ {rest left : Ranges}, RInv (left ++ rest) →
+    card left ≤ middle → 2 * middle ≤ card (left ++ rest) →
+    ∃ L R, partitionsGo middle rest left [] (card left) = .ok (L, R, card L) ∧ RInv L ∧ RInv R ∧
+      heights L ++ heights R = heights (left ++ rest) ∧
+      ((card L ≤ middle ∧ R = []) ∨ (card L = middle ∧ R ≠ []) ∨ card L = middle + 1)
+  | [], left, hi, hle, _ => by
+    refine ⟨left, [], by simp [partitionsGo], by simpa using hi, inv_nil, by simp [heights], Or.inl ⟨hle, rfl⟩⟩
+  | x :: rest, left, hi, hle, htot => by
+    obtain ⟨hl, hxr, hc⟩ := inv_append.1 hi
+    obtain ⟨hx1, hvx, hrest⟩ := inv_cons.1 hxr
+    have hvv := hvx
+    unfold ValidR at hvv
+    have htotal := card_le hi
+    have hcardall : card (left ++ x :: rest) = card left + (x.2 + 1 - x.1) + card rest := by
+      rw [card_append, card_cons]; omega
+    rw [hcardall] at htot htotal
+    have h1 : card left + (x.2 + 1 - x.1) ≤ U64_MAX := by omega
+    by_cases c1 : card left + (x.2 + 1 - x.1) ≤ middle
+    · -- the whole range goes left
+      have hins : insertRelaxed left x = .ok (left ++ [x]) :=
+        insertRelaxed_append_end hl hvx (fun y hy => hc y hy x (by simp))
+      have hi2 : RInv ((left ++ [x]) ++ rest) := by simpa [List.append_assoc] using hi
+      have hcard2 : card (left ++ [x]) = card left + (x.2 + 1 - x.1) := by
+        rw [card_append]; simp
+      have hA : card (left ++ [x]) ≤ middle := by rw [hcard2]; exact c1
+      have hB : 2 * middle ≤ card ((left ++ [x]) ++ rest) := by rw [card_append, hcard2]; exact htot
+      obtain ⟨L, R, e, k1, k2, k3, k4⟩ := partitionsGo_left (rest := rest) (left := left ++ [x]) hi2 hA hB
+      refine ⟨L, R, ?_, k1, k2, by simpa [List.append_assoc] using k3, k4⟩
+      rw [partitionsGo]
+      simp only [rangeLen_ok hvx, ok_bind, addU64, h1, ↓reduceIte, c1, hins, expectOk_ok]
+      rw [← hcard2]; exact e
+    · by_cases c2 : card left < middle
+      · -- the range straddles the middle
+        have hb := card_bound hxr x.1 (fun r hr => (inv_head_le hxr r hr).1) (by omega)
+        rw [card_cons] at hb
+        have h2 : x.1 + middle ≤ U64_MAX := by omega
+        have h3 : card left ≤ x.1 + middle := by omega
+        obtain ⟨le, hledef⟩ : ∃ le, le = x.1 + middle - card left := ⟨_, rfl⟩
+        have hle1 : x.1 ≤ le := by omega
+        have hle2 : le ≤ x.2 := by omega
+        have hvl : ValidR (x.1, le) := ⟨hvv.1, hle1, by show le ≤ U64_MAX; omega⟩
+        have hlen : le + 1 - x.1 = middle - card left + 1 := by omega
+        have h4 : card left + (middle - card left + 1) ≤ U64_MAX := by omega
+        have hinsl : insertRelaxed left (x.1, le) = .ok (left ++ [(x.1, le)]) :=
+          insertRelaxed_append_end hl hvl (fun y hy => hc y hy x (by simp))
+        have hcardl : card (left ++ [(x.1, le)]) = middle + 1 := by
+          rw [card_append]; simp only [card_cons, card_nil]; omega
+        -- the right part of the split range
+        obtain ⟨right, hrdef⟩ : ∃ right : Ranges, right = if le < x.2 then [(le + 1, x.2)] else [] := ⟨_, rfl⟩
+        have hiR : RInv (right ++ rest) := by
+          by_cases c3 : le < x.2
+          · simp only [hrdef, c3, ↓reduceIte, List.singleton_append]
+            exact inv_cons.2 ⟨fun y hy => by have := hx1 y hy; show x.2 + 1 < y.1; exact this,
+              ⟨by show 1 ≤ le + 1; omega, by show le + 1 ≤ x.2; omega, hvv.2.2⟩, hrest⟩
+          · simpa [hrdef, c3] using hrest
+        have hiL : RInv (left ++ [(x.1, le)]) :=
+          inv_append.2 ⟨hl, inv_singleton.2 hvl, fun a ha b hb' => by
+            simp only [List.mem_singleton] at hb'; subst hb'; exact hc a ha x (by simp)⟩
+        have hB := partitionsGo_right (middle := middle) (ll := middle + 1) (left := left ++ [(x.1, le)])
+          (by omega) (rest := rest) (right := right) hiR (by omega)
+        refine ⟨left ++ [(x.1, le)], right ++ rest, ?_, hiL, hiR, ?_, Or.inr (Or.inr hcardl)⟩
+        · rw [partitionsGo]
+          have hsub : subU64 (x.1 + middle) (card left) = .ok le := by simp [subU64, h3, hledef]
+          have hrl : Range.len (x.1, le) = .ok (middle - card left + 1) := by
+            rw [rangeLen_ok hvl]; congr 1
+          simp only [rangeLen_ok hvx, ok_bind, addU64, h1, ↓reduceIte, c1, c2, h2, hsub, hrl, h4,
+            hinsl, expectOk_ok]
+          rw [show card left + (middle - card left + 1) = middle + 1 by omega, hcardl]
+          by_cases c3 : le < x.2
+          · have h5 : le + 1 ≤ U64_MAX := by omega
+            have hv2 : ValidR (le + 1, x.2) := ⟨by show 1 ≤ le + 1; omega, by show le + 1 ≤ x.2; omega, hvv.2.2⟩
+            have hins2 := insertRelaxed_append_end (t := []) inv_nil hv2 (by simp)
+            simp only [List.nil_append] at hins2
+            have hr : right = [(le + 1, x.2)] := by simp [hrdef, c3]
+            simp only [c3, ↓reduceIte, h5, ok_bind, hins2, expectOk_ok]
+            rw [hr] at hB ⊢; exact hB
+          · have hr : right = [] := by simp [hrdef, c3]
+            simp only [c3, ↓reduceIte, ok_bind, pure_eq]
+            rw [hr] at hB ⊢; simpa using hB
+        · rw [heights_append, heights_append, heights_append, heights_singleton, heights_cons,
+            List.append_assoc]
+          congr 1
+          rw [← List.append_assoc]
+          congr 1
+          show List.range' x.1 (le + 1 - x.1) ++ heights right = List.range' x.1 (x.2 + 1 - x.1)
+          by_cases c3 : le < x.2
+          · simp only [hrdef, c3, ↓reduceIte, heights_singleton]
+            rw [range'_split x.1 (le + 1 - x.1) (x.2 + 1 - x.1) (by omega)]
+            congr 2 <;> omega
+          · have : le = x.2 := by omega
+            simp [hrdef, c3, heights, this]
+      · -- exactly `middle` heights are on the left: everything else goes right
+        have hcl : card left = middle := by omega
+        have hB := partitionsGo_right (middle := middle) (ll := card left) (left := left)
+          (by omega) (rest := x :: rest) (right := []) (by simpa using hxr) (by rw [card_cons]; omega)
+        refine ⟨left, x :: rest, by simpa using hB, hl, hxr, by rw [heights_append], Or.inr (Or.inl ⟨hcl, by simp⟩)⟩
+
+/-- **`partitions`**: `None` exactly for the empty value; otherwise `(left, middle, right)` with
+    `heights left ++ middle :: heights right = heights rs` (so `left < middle < right` and together
+    they are the set) and sizes differing by at most one.  No arithmetic overflow (in particular
+    not in `start + middle - left_len`), no failed `expect`. -/
+theorem partitions_spec {rs : Ranges} (hi : RInv rs) :
+    (rs = [] ∧ partitions rs = .ok none) ∨
+    (rs ≠ [] ∧ ∃ l m r, partitions rs = .ok (some (l, m, r)) ∧ RInv l ∧ RInv r ∧
+      heights l ++ m :: heights r = heights rs ∧ card l ≤ card r + 1 ∧ card r ≤ card l + 1) := by
+  by_cases hnil : rs = []
+  · subst hnil
+    exact Or.inl ⟨rfl, by simp [partitions, len, lenGo]⟩
+  · right
+    refine ⟨hnil, ?_⟩
+    have hpos : card rs ≠ 0 := fun h => hnil ((card_eq_zero_iff hi).1 h)
+    obtain ⟨L, R, e, hL, hR, hh, hcase⟩ := partitionsGo_left (middle := card rs / 2) (rest := rs)
+      (left := []) (by simpa using hi) (by simp) (by simp only [List.nil_append]; omega)
+    simp only [List.nil_append, card_nil] at e hh
+    have hlen : card L + card R = card rs := by
+      have := congrArg List.length hh
+      simpa [card_eq_length_heights] using this
+    have hne : (card rs == 0) = false := by simpa using hpos
+    have hstart : partitions rs = (do
+        let rl ← len R
+        if card L < rl then do
+          let (m, right') ← popTail R
+          match m with
+          | some m => pure (some (L, m, right'))
+          | none => pure none
+        else do
+          let (m, left') ← popHead L
+          match m with
+          | some m => pure (some (left', m, R))
+          | none => pure none) := by
+      simp only [partitions, len_spec hi, ok_bind, hne, Bool.false_eq_true, ↓reduceIte, e]
+      rfl
+    rw [hstart, len_spec hR]
+    simp only [ok_bind]
+    by_cases clt : card L < card R
+    · -- the middle is the tail of `right`
+      simp only [clt, ↓reduceIte]
+      cases R with
+      | nil => simp at clt
+      | cons r R' =>
+        obtain ⟨rs', p1, p2, p3, p4⟩ := popTail_heights hR
+        refine ⟨L, r.1, rs', by simp [p1], hL, p2, by rw [← hh, p3], ?_, ?_⟩
+        · omega
+        · rcases hcase with ⟨_, h⟩ | ⟨h, _⟩ | h
+          · cases h
+          · omega
+          · omega
+    · simp only [clt, ↓reduceIte]
+      have hLne : L ≠ [] := by
+        intro h
+        subst h
+        simp only [card_nil] at hlen clt hcase
+        rcases hcase with ⟨_, h⟩ | ⟨h, _⟩ | h
+        · subst h; simp at hlen; omega
+        · omega
+        · omega
+      rcases List.eq_nil_or_concat L with h | ⟨ys, z, h⟩
+      · exact absurd h hLne
+      · rw [List.concat_eq_append] at h
+        subst h
+        obtain ⟨rs', p1, p2, p3, p4⟩ := popHead_heights hL
+        refine ⟨rs', z.2, R, by simp [p1], p2, hR, ?_, ?_, ?_⟩
+        · rw [← hh, p3, List.append_assoc]; rfl
+        · omega
+        · rcases hcase with ⟨h1, h2⟩ | ⟨h1, _⟩ | h1
+          · subst h2; simp at hlen; omega
+          · omega
+          · omega
+
 end Lumina.Proofs.Ranges
